@@ -5,8 +5,10 @@
 //!   simrun one <Cxx> <seed> [index]        (debug: run one seed, print the record)
 //!   simrun selftest determinism <Cxx> [n]
 
+mod alloc;
 mod broker;
 mod cluster;
+mod connsim;
 mod controlsim;
 mod framework;
 mod lin;
@@ -24,6 +26,9 @@ mod wiresim;
 
 use framework::{Check, Tier};
 
+#[global_allocator]
+static GLOBAL: alloc::Counting = alloc::Counting;
+
 static C01: broker::BrokerCheck = broker::BrokerCheck { prop: "C01" };
 static C04: broker::BrokerCheck = broker::BrokerCheck { prop: "C04" };
 static C06: broker::BrokerCheck = broker::BrokerCheck { prop: "C06" };
@@ -40,6 +45,9 @@ static C05: proxysim::ProxyCheck = proxysim::ProxyCheck { prop: "C05" };
 static C09: proxysim::ProxyCheck = proxysim::ProxyCheck { prop: "C09" };
 static C20: proxysim::ProxyCheck = proxysim::ProxyCheck { prop: "C20" };
 static C17: wiresim::WireCheck = wiresim::WireCheck;
+static C08: connsim::ConnCheck = connsim::ConnCheck { prop: "C08" };
+static C15: connsim::ConnCheck = connsim::ConnCheck { prop: "C15" };
+static C16: connsim::ConnCheck = connsim::ConnCheck { prop: "C16" };
 static C11: shuttle_eng::ShuttleCheck = shuttle_eng::ShuttleCheck { prop: "C11" };
 
 static C13E1: broker::BrokerCheck = broker::BrokerCheck { prop: "C13" };
@@ -66,6 +74,9 @@ fn lookup(id: &str) -> Option<&'static dyn Check> {
         "C13" => c13(),
         "C18" => &C18,
         "C11" => &C11,
+        "C08" => &C08,
+        "C15" => &C15,
+        "C16" => &C16,
         "C17" => &C17,
         "C05" => &C05,
         "C09" => &C09,
